@@ -257,5 +257,47 @@ theorem goodU_subst (B : List Ty) (x : Ty) (m : TMap) (hx : goodU B x)
     (hm : ∀ p ∈ m, goodU B p.2) : goodU B (substituteType x m) :=
   goodU_getSubst B x m false hx hm
 
+/-! ## concrete instances -/
+
+namespace CheckUnivEx
+def anyT : Ty := builtin "AnyType" "Any" false false []
+def strT : Ty := builtin "StringType" "String" false false [anyT]
+/-- the table of the built-ins -/
+def B : List Ty := [anyT, strT]
+def tpT : Ty := tparam "T" 0 (some anyT)
+def listCon : Ty := tcon "TypeConstructor" "List" [tpT] [anyT]
+/-- `List<T>` and `List<String>` -/
+def listOfT : Ty := param "List" listCon [tpT] [anyT]
+def listOfStr : Ty := param "List" listCon [strT] [anyT]
+/-- a foreign copy of `Any` (same class, hence `==` to `Any`) that stores `String` as a supertype -/
+def any' : Ty := builtin "AnyType" "Any" false false [strT]
+/-- a class that extends the foreign copy -/
+def clsA : Ty := simple "A" [any']
+end CheckUnivEx
+
+open CheckUnivEx in
+example : tableOK B = true := by decide
+open CheckUnivEx in
+example : goodB B listOfT = true := by decide
+open CheckUnivEx in
+example : goodB B listOfStr = true := by decide
+/-- the foreign copy is `==` to `Any` but is rejected, and so is everything built over it -/
+example : beq CheckUnivEx.any' CheckUnivEx.anyT = true ∧ goodB CheckUnivEx.B CheckUnivEx.any' = false ∧
+    goodB CheckUnivEx.B CheckUnivEx.clsA = false := by decide
+open CheckUnivEx in
+/-- the hypotheses of `goodU_subst` are met, the substitution is not the identity -/
+example : goodU B listOfT ∧ (∀ p ∈ [(tpT, strT)], goodU B p.2) ∧
+    seq (substituteType listOfT [(tpT, strT)]) listOfStr = true ∧
+    goodU B (substituteType listOfT [(tpT, strT)]) := by
+  have h1 : goodU B listOfT := by unfold goodU; decide
+  have h2 : ∀ p ∈ [(tpT, strT)], goodU B p.2 := by
+    intro p hp
+    simp only [List.mem_singleton] at hp
+    subst hp
+    exact goodU_of_table (by decide) strT (by simp [B])
+  exact ⟨h1, h2, by decide, goodU_subst B _ _ h1 h2⟩
+open CheckUnivEx in
+example : ∀ c ∈ children listOfStr, goodU B c := closedU_goodU B listOfStr (by unfold goodU; decide)
+
 end Ty
 end Heph
